@@ -50,6 +50,44 @@ Check C14_relations_rt : forall (V : Type) (vparse : str -> option V) (vprint : 
   relations_ok vparse vprint rs -> relations_from_str vparse (print_relations vprint rs) = Ok rs.
 Print Assumptions C14_relations_rt.
 
+(* ---------------------------------------------------------------- everything the reader returns is in the domain *)
+(* names, qualifiers, architectures and profile names of a value returned by the reader are valid
+   components (they come from IDENT tokens) and no entry is empty *)
+Theorem C14_reader_range : forall (V : Type) (vparse : str -> option V) (s : str),
+  (forall r, relation_from_str vparse s = Ok r -> relation_shape_ok r) /\
+  (forall rs, relations_from_str vparse s = Ok rs -> Forall (fun e => e <> [] /\ Forall relation_shape_ok e) rs).
+Proof. intros V vparse s. split; [apply relation_from_str_range|apply relations_from_str_range]. Qed.
+Check C14_reader_range : forall (V : Type) (vparse : str -> option V) (s : str),
+  (forall r, relation_from_str vparse s = Ok r -> relation_shape_ok r) /\
+  (forall rs, relations_from_str vparse s = Ok rs -> Forall (fun e => e <> [] /\ Forall relation_shape_ok e) rs).
+Print Assumptions C14_reader_range.
+
+(* hence printing is a right inverse of reading on everything the reader accepts, as soon as the
+   external version printer/parser agree on the versions read (all strings s, no other condition) *)
+Theorem C14_relation_reread : forall (V : Type) (vparse : str -> option V) (vprint : V -> str) (s : str) (r : relation V),
+  relation_from_str vparse s = Ok r ->
+  match r_version r with Some (_, v) => version_ok vparse vprint v | None => True end ->
+  relation_from_str vparse (print_relation vprint r) = Ok r.
+Proof. exact relation_reread. Qed.
+Check C14_relation_reread : forall (V : Type) (vparse : str -> option V) (vprint : V -> str) (s : str) (r : relation V),
+  relation_from_str vparse s = Ok r ->
+  match r_version r with Some (_, v) => version_ok vparse vprint v | None => True end ->
+  relation_from_str vparse (print_relation vprint r) = Ok r.
+Print Assumptions C14_relation_reread.
+
+Theorem C14_relations_reread : forall (V : Type) (vparse : str -> option V) (vprint : V -> str) (s : str)
+    (rs : list (list (relation V))),
+  relations_from_str vparse s = Ok rs ->
+  Forall (Forall (fun r => match r_version r with Some (_, v) => version_ok vparse vprint v | None => True end)) rs ->
+  relations_from_str vparse (print_relations vprint rs) = Ok rs.
+Proof. exact relations_reread. Qed.
+Check C14_relations_reread : forall (V : Type) (vparse : str -> option V) (vprint : V -> str) (s : str)
+    (rs : list (list (relation V))),
+  relations_from_str vparse s = Ok rs ->
+  Forall (Forall (fun r => match r_version r with Some (_, v) => version_ok vparse vprint v | None => True end)) rs ->
+  relations_from_str vparse (print_relations vprint rs) = Ok rs.
+Print Assumptions C14_relations_reread.
+
 (* ---------------------------------------------------------------- the external, made concrete *)
 (* the assumption about debversion holds for the model of debversion 0.4.4 on canonical versions *)
 Theorem C14_debversion_canonical : forall v : dversion,
@@ -197,6 +235,16 @@ Example C14_ex_patched_witnesses :
   print_relation dv_print w_two_terms = [97; 32; 60; 120; 32; 33; 121; 62]%N /\
   relation_from_str dv_parse [97; 32; 60; 32; 120; 32; 62]%N = Ok (mkRel [97%N] None None None [[Enabled [120%N]]]).
 Proof. exact new_witnesses_fixed. Qed.
+Definition ex_reread_value : list (list (relation dversion)) :=     (* a:any (>= 1) [!x] <y> | b *)
+  [[mkRel [97%N] (Some [97; 110; 121]%N) (Some [[33; 120]%N]) (Some (VC_ge, mkDv None [49%N] None)) [[Enabled [121%N]]];
+    mkRel [98%N] None None None []]].
+Example C14_ex_reread :                         (* " a:any ( >=1) [ !x ]<y>|b ,," is read, printed canonically, read again *)
+  let s := [32; 97; 58; 97; 110; 121; 32; 40; 32; 62; 61; 49; 41; 32; 91; 32; 33; 120; 32; 93; 60; 121; 62; 124; 98; 32; 44; 44]%N in
+  relations_from_str dv_parse s = Ok ex_reread_value /\
+  print_relations dv_print ex_reread_value
+  = [97; 58; 97; 110; 121; 32; 40; 62; 61; 32; 49; 41; 32; 91; 33; 120; 93; 32; 60; 121; 62; 32; 124; 32; 98]%N /\
+  relations_from_str dv_parse (print_relations dv_print ex_reread_value) = Ok ex_reread_value.
+Proof. vm_compute. repeat split. Qed.
 Example C14_ex_errors :                         (* both outcomes of the totality theorems occur *)
   relation_from_str dv_parse [97; 32; 40]%N = Err 3%N /\                        (* "a (" *)
   relations_from_str dv_parse [97; 124]%N = Err 10%N /\                          (* "a|" *)
